@@ -544,6 +544,85 @@ theorem write_spec (hS : 0 < S) (hm : m.S = S)
       refine ⟨e3.gm ga gm2, mo2.trans (e3.mono ga gm2), ?_, wp3⟩
       rw [e3.S_eq]; exact hm2
 
+/-- The image half of an effect alone is an effect (a `WriteAt` that failed after the image was updated). -/
+theorem Eff.imgOnly {m m' : Mem} (e : Eff S flat sec a ws m m') : Eff S flat sec a ws m { m with img := m'.img } :=
+  ⟨rfl, e.img, fun _ => Or.inl fun _ _ => rfl, [], rfl, fun _ h => by simp at h⟩
+
+/-- One `Write` call during which the `j`-th `WriteAt` fails (or none, when there are fewer). -/
+theorem writeFail_spec (hS : 0 < S) (hm : m.S = S)
+    (hF : ∀ k, k < data.length → flat.getD (start + k) 0 = data.getD k 0)
+    (hB : start + data.length ≤ total S a)
+    (hr : ∃ r, r ∈ ws ∧ r.start = start ∧ r.data = data)
+    (ga : GA S sec a ws) (gm : GM S flat sec a m)
+    (wp : WP S flat sec a.nextId m w start data c)
+    (hp : ∀ i, i < p.length → p.getD i 0 = data.getD (c + i) 0) (hpl : c + p.length ≤ data.length) (j : Nat) :
+    GM S flat sec a (w.writeFail m p j).1 ∧ Mono S flat sec a m (w.writeFail m p j).1 ∧ (w.writeFail m p j).1.S = S ∧
+    ∀ w', (w.writeFail m p j).2 = some w' →
+      WP S flat sec a.nextId (w.writeFail m p j).1 w' start data (c + p.length) := by
+  have s1 := stage1_spec (ws := ws) hS hm hF hB wp hp hpl
+  unfold W.writeFail
+  generalize w.stage1 m p = r1 at s1
+  obtain ⟨m1, w1, p1, stop1⟩ := r1
+  dsimp only at s1 ⊢
+  obtain ⟨e1, c1, wp1, hc1, hp1, hstop1, hgo1⟩ := s1
+  have gm1 := e1.gm ga gm
+  have mo1 := e1.mono ga gm
+  have hm1 : m1.S = S := by rw [e1.S_eq]; exact hm
+  by_cases hf1 : (w.firstImg.isSome && !stop1 && j == 0) = true
+  · -- the first-sector write fails: only the image was updated
+    rw [if_pos hf1]
+    have e0 := e1.imgOnly
+    exact ⟨e0.gm ga gm, e0.mono ga gm, hm, fun w' h => by simp at h⟩
+  · rw [if_neg hf1]
+    cases stop1 with
+    | true =>
+      simp only [if_true]
+      have : p1 = [] := hstop1 rfl
+      subst this
+      simp only [List.length_nil, Nat.add_zero] at hc1
+      subst hc1
+      exact ⟨gm1, mo1, hm1, fun w' h => by cases h; exact wp1⟩
+    | false =>
+      simp only [Bool.false_eq_true, if_false]
+      have hf := hgo1 rfl
+      have s2 := stage2_spec hS hm1 hF hB hr wp1 hf hp1 (by omega)
+      generalize w1.stage2 m1 p1 = r2 at s2
+      obtain ⟨m2, w2, p2, stop2⟩ := r2
+      dsimp only at s2 ⊢
+      obtain ⟨e2, hf2, c2, wp2, hc2, hp2, hstop2, hgo2⟩ := s2
+      have gm2 := e2.gm ga gm1
+      have mo2 := mo1.trans (e2.mono ga gm1)
+      have hm2 : m2.S = S := by rw [e2.S_eq]; exact hm1
+      generalize (if (w.firstImg.isSome && !false) = true then j - 1 else j) = j1
+      by_cases h2 : (decide (w1.part.length > 0) && !stop2 && j1 == 0) = true
+      · -- the private-sector write fails: nothing of step 2 reaches the device
+        rw [if_pos h2]
+        exact ⟨gm1, mo1, hm1, fun w' h => by simp at h⟩
+      · rw [if_neg h2]
+        cases stop2 with
+        | true =>
+          simp only [if_true]
+          have : p2 = [] := hstop2 rfl
+          subst this
+          simp only [List.length_nil, Nat.add_zero] at hc2
+          have : c2 = c + p.length := by omega
+          subst this
+          exact ⟨gm2, mo2, hm2, fun w' h => by cases h; exact wp2⟩
+        | false =>
+          simp only [Bool.false_eq_true, if_false]
+          generalize (if (decide (w1.part.length > 0) && !false) = true then j1 - 1 else j1) = j2
+          by_cases h3 : (decide (p2.length / m.S > 0) && j2 == 0) = true
+          · -- the run of whole sectors is not written
+            rw [if_pos h3]
+            exact ⟨gm2, mo2, hm2, fun w' h => by simp at h⟩
+          · rw [if_neg h3]
+            have s3 := stage3_spec hS hm2 hF hB hr wp2 hf2 (hgo2 rfl) hp2 (by omega)
+            obtain ⟨e3, wp3⟩ := s3
+            have : c2 + p2.length = c + p.length := by omega
+            rw [this] at wp3
+            refine ⟨e3.gm ga gm2, mo2.trans (e3.mono ga gm2), ?_, fun w' h => by cases h; exact wp3⟩
+            rw [e3.S_eq]; exact hm2
+
 theorem setRange_nil (f : Nat → Nat) (k : Nat) : setRange f k [] = f := by
   funext i; unfold setRange; rw [if_neg (by simp only [List.length_nil]; omega)]
 
